@@ -32,6 +32,7 @@ type Program struct {
 	loops   map[*ssa.Function]*loopInfo
 	modsets map[*ssa.Function]*modSet
 
+	tagSort      map[int]Sort
 	immutableGlobal map[string]bool // heap names of globals never assigned outside init
 	defAxioms    map[string]*T // definitional axioms of opaque spec functions, by UF name
 	unknownCalls map[string]int
@@ -280,6 +281,15 @@ func (p *Program) loopsOf(fn *ssa.Function) *loopInfo {
 	li := analyzeLoops(fn)
 	p.loops[fn] = li
 	return li
+}
+
+func (p *Program) noteTagSort(tag int, s Sort) {
+	p.mu.Lock()
+	defer p.mu.Unlock()
+	if p.tagSort == nil {
+		p.tagSort = map[int]Sort{}
+	}
+	p.tagSort[tag] = s
 }
 
 func (p *Program) noteUnknownCall(key string) { p.unknownCalls[key]++ }
